@@ -348,7 +348,7 @@ theorem removeOrig_last_fails {h : Heap} (inv : HeapInv h) (h2 : 2 ≤ h.size) :
   have hlast : h.size < h.nodes.size := by omega
   obtain ⟨last, hlastv⟩ := exists_getElem? hlast
   unfold Heap.removeOrig Heap.removeCore
-  simp only [show h.size ≠ 0 by omega, if_false, show ¬ (h.size = 0 ∨ h.size > h.size) by omega,
+  simp only [show h.size ≠ 0 by omega, if_false,
     rdN_eq_ok (show 0 < h.size by omega) hlastv, Bool.false_and, Bool.false_eq_true, if_true]
   have : 2 * (h.size - 1) + 2 = (2 * (h.size - 1) + 1) + 1 := by omega
   rw [this]
